@@ -184,6 +184,45 @@ Proof.
     right. eapply req_loop_inner; eauto.
 Qed.
 
+(* leaf frames at depth 2 *)
+Lemma try_tracker2_covers allow f t t' :
+  try_tracker2 allow f t = Some t' ->
+  func_eqb (en_root (tk_entry t)) f || existsb (fun s => func_eqb s f) (en_subs (tk_entry t)) = true.
+Proof.
+  unfold try_tracker2. intros H.
+  destruct (tk_m0 t && tk_m1 t); [discriminate|].
+  destruct (tk_m0 t || tk_m1 t).
+  - destruct (match_sub f (en_subs (tk_entry t)) (tk_sub_ex t)) eqn:E; [|discriminate].
+    rewrite (match_sub_some _ _ _ _ E). apply orb_true_r.
+  - destruct (negb (tk_root_ex t) && allow && func_eqb (en_root (tk_entry t)) f) eqn:E; [|discriminate].
+    apply andb_true_iff in E. destruct E as [_ E]. rewrite E. reflexivity.
+Qed.
+
+Lemma req_loop2_covers allow who f ts ts' :
+  req_loop2 allow who f ts = Some ts' ->
+  existsb (fun e => covers e who f) (entries ts) = true.
+Proof.
+  revert ts'. induction ts as [|t r IH]; cbn; intros ts' H; [discriminate|].
+  unfold covers at 1. fold (tk_who t).
+  destruct (N.eqb (tk_who t) who) eqn:Ew; cbn [andb].
+  - destruct (try_tracker2 allow f t) eqn:E.
+    + rewrite (try_tracker2_covers _ _ _ _ E). reflexivity.
+    + destruct (req_loop2 allow who f r) eqn:E2; [|discriminate].
+      rewrite (IH _ eq_refl). apply orb_true_r.
+  - destruct (req_loop2 allow who f r) eqn:E2; [|discriminate].
+    rewrite (IH _ eq_refl). reflexivity.
+Qed.
+
+Lemma require_auth2_covers inv who f ts ts' :
+  require_auth2 inv who f ts = Ok ts' ->
+  inv = who \/ existsb (fun e => covers e who f) (entries ts) = true.
+Proof.
+  unfold require_auth2. destruct (N.eqb inv who) eqn:E.
+  - left. apply N.eqb_eq. exact E.
+  - destruct (req_loop2 _ _ _ _) eqn:E2; cbn; intros H; [|discriminate].
+    right. eapply req_loop2_covers; eauto.
+Qed.
+
 (* ------------------------------------------------------------------------- *)
 (* fee token                                                                  *)
 (* ------------------------------------------------------------------------- *)
